@@ -223,6 +223,7 @@ impl ProtoWorld {
         self.root.node()
     }
 
+
     /// Behavioural confirmation of the negotiated version on a channel that does not exist:
     /// below version 5 RevokeCommitmentTx is refused because of the version (before any
     /// channel lookup), from version 5 on it is refused because the channel is unknown.
@@ -379,7 +380,7 @@ impl ProtoWorld {
         ci
     }
 
-    fn store_dump(&self) -> Vec<(String, u64, Vec<u8>)> {
+    pub fn store_dump(&self) -> Vec<(String, u64, Vec<u8>)> {
         self.store
             .0
             .get_prefix("")
@@ -491,6 +492,11 @@ pub struct ProtoMachine {
     /// table of the channel's true secrets (ghost knowledge), grown on demand: secret -> number
     secrets: BTreeMap<[u8; 32], u64>,
     secrets_upto: u64,
+    /// C10's wire group: observe the signer's state and store around every message; a refused
+    /// message that changed something is recorded in `refusal_diffs` (message name, error, paths)
+    pub watch_refusals: bool,
+    pub refusal_diffs: Vec<(&'static str, String, Vec<String>)>,
+    pub refusals_watched: u64,
 }
 
 pub fn setup_proto(anchors: bool, outbound: bool, version: u32) -> ProtoMachine {
@@ -521,7 +527,7 @@ pub fn setup_proto(anchors: bool, outbound: bool, version: u32) -> ProtoMachine 
         };
         assert!(ok, "keysend preapproval");
     }
-    ProtoMachine { w, ci, stub, g: Ghost::new(), dead: false, secrets: BTreeMap::new(), secrets_upto: 0 }
+    ProtoMachine { w, ci, stub, g: Ghost::new(), dead: false, secrets: BTreeMap::new(), secrets_upto: 0, watch_refusals: false, refusal_diffs: vec![], refusals_watched: 0 }
 }
 
 /// What one reply contained.
@@ -638,7 +644,39 @@ impl ProtoMachine {
             (To::Chan(c), Message::GetPerCommitmentPoint2(m)) if *c == self.ci => Some(m.commitment_number),
             _ => None,
         };
+        let before = if self.watch_refusals { Some((crate::props::unionm::observe(self.w.node()), self.w.store_dump())) } else { None };
         let r = self.w.request(to, msg);
+        if let (Some((b, dump_b)), Out::Err(e)) = (&before, &r) {
+            self.refusals_watched += 1;
+            let a = crate::props::unionm::observe(self.w.node());
+            let mut diffs = crate::props::unionm::snap_diffs(b, &a);
+            if diffs.is_empty() {
+                let dump_a = self.w.store_dump();
+                if *dump_b != dump_a {
+                    let changed: Vec<String> = dump_a.iter().filter(|e| !dump_b.contains(e)).map(|e| e.0.split('/').take(1).collect::<Vec<_>>().join("/")).collect();
+                    diffs.push(format!("store({})", changed.first().cloned().unwrap_or_default()));
+                    // detail for the message: version and first differing position of the first changed entry
+                    if let Some(ea) = dump_a.iter().find(|e| !dump_b.contains(e)) {
+                        let detail = match dump_b.iter().find(|e| e.0 == ea.0) {
+                            Some(eb) => {
+                                let pos = ea.2.iter().zip(eb.2.iter()).position(|(x, y)| x != y).unwrap_or(ea.2.len().min(eb.2.len()));
+                                let lo = pos.saturating_sub(60);
+                                if ea.2 == eb.2 {
+                                    format!("version {} -> {}, value unchanged (the entry was rewritten)", eb.1, ea.1)
+                                } else {
+                                    format!("version {} -> {}, value differs at byte {}: before ...{}... after ...{}...", eb.1, ea.1, pos, String::from_utf8_lossy(&eb.2[lo..(pos + 40).min(eb.2.len())]), String::from_utf8_lossy(&ea.2[lo..(pos + 40).min(ea.2.len())]))
+                                }
+                            }
+                            None => "new entry".to_string(),
+                        };
+                        diffs.push(detail);
+                    }
+                }
+            }
+            if !diffs.is_empty() {
+                self.refusal_diffs.push((name, crate::props::holder::short_err(&e.message().to_string()), diffs));
+            }
+        }
         if let (Out::Ok(rep), Some(n)) = (&r, point_num) {
             let a = rep.as_any();
             let p: Option<[u8; 33]> = if let Some(x) = a.downcast_ref::<msgs::ValidateCommitmentTxReply>() {
